@@ -309,3 +309,11 @@ fn c16_iter_shapes_parse_number_small() {
 fn c16_iter_shapes_parse_number_20() {
     iter_shapes_case(18, 3);
 }
+
+/// more than 19 integer digits: the remaining integer digits are COUNTED (not estimated from
+/// a size hint), whatever the iterator type
+#[kani::proof]
+#[kani::unwind(24)]
+fn c16_iter_shapes_parse_number_21() {
+    iter_shapes_case(21, 1);
+}
